@@ -11,21 +11,21 @@ CXS = [0, 5, 6, 7, 8, 10]
 BRS = [6000, 9000, 12000, 16000, 24000, 32000, 48000, 64000, 128000, 256000, -1000, -1]
 
 
-def schedules_from_tlc(ctx, cfg):
-    """behaviours (activity schedules) enumerated by TLC from Dtx_gen"""
-    r = vf.tlc("Dtx_gen", cfg, workers=4, timeout=600)
+def schedules_from_tlc(ctx, cfg, module="Dtx_gen"):
+    """behaviours (activity schedules) enumerated by TLC from Dtx_gen / Dtx_gen2 (the latter with OPUS_SET_DTX toggles "D")"""
+    r = vf.tlc(module, cfg, workers=4, timeout=600)
     if r.error:
-        raise vf.Infra("Dtx_gen: " + r.error)
-    ctx.add_tlc(r, "gen Dtx_gen/" + cfg)
+        raise vf.Infra(module + ": " + r.error)
+    ctx.add_tlc(r, "gen %s/%s" % (module, cfg))
     out = []
     for p in r.prints:
         if not p.startswith('<<"SCHED"'):
             continue
-        segs = re.findall(r'\\"([asn])\\", (\d+)', p)
+        segs = re.findall(r'\\"([asnD])\\", (\d+)', p)
         if segs:
             out.append([(k, int(n)) for k, n in segs])
     if not out:
-        raise vf.Infra("Dtx_gen emitted no schedule")
+        raise vf.Infra(module + " emitted no schedule")
     return out
 
 
@@ -57,7 +57,12 @@ def pick_cfg(rng, i):
 def sched_line(c, sched, sseed):
     ms_pkt = c["dq"] / 2.0
     segs = []
+    cur = c["dtx"]
     for k, n in sched:
+        if k == "D":               # a toggle: OPUS_SET_DTX(the other value) at this point of the stream
+            cur = 1 - cur
+            segs.append("D%d" % cur)
+            continue
         ms = n if n > 0 else ms_pkt
         segs.append("%s%g" % (k, ms))
     return "X %d %d %d %d %d %d %d %d %d %d %d %d | %s" % (c["fs"], c["ch"], c["app"], c["cx"], c["br"], c["vbr"], c["dtx"],
@@ -139,6 +144,25 @@ def run(ctx):
                          dtx=1, dq=dq, maxb=1500, fec=0, fch=0)
                 lines.append(sched_line(c, [("s", 3000), ("a", 500)], rng.randrange(1, 1 << 30)))
                 lines.append(sched_line(c, [("s", 900), ("a", 300), ("s", 1500)], rng.randrange(1, 1 << 30)))
+    # OPUS_SET_DTX switched off and on again mid-stream (schedules with toggles enumerated by TLC from Dtx_gen2; every one
+    # on an encoder of each detector class, starting with DTX on and starting with DTX off), plus directed histories in
+    # which DTX is re-enabled exactly when a silence begins after the encoder had been in DTX earlier
+    tsch = schedules_from_tlc(ctx, "Dtx_gen2_quick.cfg" if tier == "quick" else "Dtx_gen2_thorough.cfg", module="Dtx_gen2")
+    ctx.notes["toggle_schedules"] = len(tsch)
+    for i, sc in enumerate(tsch):
+        for rep in range(2 if tier == "quick" else 3):
+            dq = DURS[(i + 3 * rep) % len(DURS)]
+            (fs, cx, app) = [(48000, 10, 2049), (16000, 7, 2048), (16000, 5, 2048), (8000, 10, 2048), (24000, 9, 2051), (48000, 0, 2048)][(i + rep) % 6]
+            c = dict(fs=fs, ch=1 + (i + rep) % 2, app=app, cx=cx, br=max(24000, (2 * 96000 + dq - 1) // dq), vbr=(i // 2) % 2, dtx=(i + rep) % 2,
+                     dq=dq, maxb=1500, fec=0, fch=0)
+            lines.append(sched_line(c, sc, rng.randrange(1, 1 << 30)))
+    for dq in DURS:
+        for (fs, cx, app) in [(48000, 10, 2049), (16000, 7, 2048), (24000, 9, 2051)]:
+            for gap in (300, 700):
+                c = dict(fs=fs, ch=1, app=app, cx=cx, br=max(24000, (2 * 96000 + dq - 1) // dq), vbr=1, dtx=1, dq=dq, maxb=1500, fec=0, fch=0)
+                al = 10 * max(dq / 2.0, 20)       # bursts are whole numbers of packets so that the toggles sit on packet boundaries
+                lines.append(sched_line(c, [("a", al), ("s", (int(gap / (dq / 2.0)) + 1) * (dq / 2.0)), ("D", 0), ("a", al), ("D", 0), ("s", 1200), ("a", al)],
+                                        rng.randrange(1, 1 << 30)))
     # the execution that reaches finding F4 (speech layer overruns a tight buffer with FEC on, DTX off)
     lines.append("X 8000 2 2048 5 256000 1 0 120 120 1 960305695 | a1000 n180 s400")
     rng.shuffle(lines)
@@ -212,6 +236,8 @@ def stats(ctx, out):
             n += 1
             if e["k"] == "new":
                 cfg = e; had_dtx = False; sil = False; run = 0; since = 0; loudrun = 0; sawd = False; refr = False
+            elif e["k"] == "dtx":
+                cfg = dict(cfg, dtx=e["v"]); OBS["dtx_toggles"] = OBS.get("dtx_toggles", 0) + 1
             elif e["k"] == "enc":
                 OBS["packets"] += 1
                 isd = e["r"] in (1, 2) and not (e["r"] == 2 and e["b1"] == 0 and e["toc"] % 4 == 0)
